@@ -824,7 +824,9 @@ func (app *App) approveSwitchover(switchover *Switchover, activeNodes []string, 
 		return fmt.Errorf("switchover failed %d times, giving up after reaching switchover_max_attempts (%d)",
 			switchover.RunCount, app.config.SwitchoverMaxAttempts)
 	}
-	if switchover.RunCount > 0 {
+	// already approved: either an attempt has failed before, or a previous manager has started
+	// the first attempt and died in the middle of it (the candidate may already be half-promoted)
+	if switchover.RunCount > 0 || !switchover.StartedAt.IsZero() {
 		return nil
 	}
 	permissibleSlaves := countAliveHASlavesWithinNodes(activeNodes, clusterState)
